@@ -552,6 +552,9 @@ func init() {
 				add("k2-crashed-merge-then-merge-crash2", merge(base, p("k", 2, "ops", opPut, "dfs_lo", 60, "dfs_hi", 100, "aftermerge", 1, "tailops", opMerge|opRestart)))
 				add("k3-permute-3files-crash2", merge(base, p("k", 3, "ops", opPut|opDelete, "dfs_lo", 60, "dfs_hi", 66, "permute", 1)))
 				add("second-generation-k2-crash2", merge(base, p("preput", 2, "premerge", 1, "k", 2, "ops", opPut|opDelete, "dfs_lo", 60, "dfs_hi", 100)))
+				// whole lifecycles under crash: Merge and restarts anywhere in the history, then Merge and the adopting restart
+				add("lifecycle-k3", merge(base, p("preput", 1, "k", 3, "ops", opPut|opDelete|opMerge|opRestart, "dfs_lo", 60, "dfs_hi", 100, "crash2", 0)))
+				add("lifecycle-k2-mmap-btree", merge(base, p("preput", 1, "k", 2, "ops", opPut|opDelete|opMerge|opRestart, "dfs_lo", 60, "dfs_hi", 100, "crash2", 0, "io", 1, "index", 1, "shards", 2)))
 				add("cfgsweep-k1", merge(base, p("cfgsweep", 2, "preput", 1, "k", 1, "ops", opPut|opDelete, "dfs_lo", 40, "dfs_hi", 40, "crash2", 0)))
 			}
 			js = append(js, JobSpec{Name: "witness", Harness: "root", Func: "verifHarnessCrash", Params: merge(base, p("k", 1, "ops", opPut, "witness", 1, "crash2", 0)), Scale: scaleDF(32), Witness: true})
